@@ -765,6 +765,11 @@ def tab19(units, R):
         pp = [p for p in fn.params if u.ty(p['ty'])['s'].count('*') == 2]
         if len(pp) != 1:
             raise AnalysisBroken('TAB19: %s does not take one char** cursor' % name)
+        if _tab19_scalar_shape(u, fn):
+            # the scan reads through an index or keeps bytes in scalar locals: followed with the byte-path engine, which knows
+            # positions of the form cursor[counter] and scalars that hold input bytes across iterations
+            n_ob += _tab19_bytepath(u, fn, name, opener, closer, '*' + pp[0]['n'], R)
+            continue
         ppd = pp[0]['d']
         heads = [n for n in cfg.nodes if n.kind == 'nop' and n.name == 'loop-head']
         if len(heads) > 1:
@@ -948,6 +953,97 @@ def tab19(units, R):
             R.ob('TAB19', fn, None, '%s recognises its closer %r' % (name, closer), False, 'no exit of the scanning loop matches the closer',
                  key='nocloser:' + name)
     R.floor('TAB19', 'comment delimiter obligations', n_ob, 4)
+
+
+def _tab19_scalar_shape(u, fn):
+    """does the function index a character pointer by an integer local, or keep a byte read through one in a scalar local?"""
+    from ..dataflow import access
+    charp = lambda t: t['c'] == 'ptr' and 'char' in t['s'] and t['s'].count('*') == 1
+    for x in fn.nodes():
+        if x.get('k') == 'idx' and charp(u.ty(strip_casts(x['b']).get('ty0', strip_casts(x['b'])['ty']))):
+            i0 = strip_casts(x['i'])
+            while i0.get('k') == 'bin' and i0['op'] in ('+', '-') and const_val(i0['r']) is not None:
+                i0 = strip_casts(i0['l'])
+            if i0.get('k') == 'ref' and i0.get('dk') == 'local':
+                return True
+    for d in fn.locals():
+        t = u.ty(d['ty'])
+        if t['c'] == 'int' and t.get('bits') == 8:
+            return True
+    return False
+
+
+def _tab19_bytepath(u, fn, name, opener, closer, pcur, R):
+    from . import bytepath as bp
+    ex = bp.explore(u, fn)
+    heads = sorted(ex.heads)
+    if len(heads) != 1:
+        raise AnalysisBroken('TAB19: %s: %d scanning loops' % (name, len(heads)))
+    entry = [s for s in ex.segments if s.start == 'entry' and s.end[0] == 'head']
+    loops = bp.loop_segments(ex)
+    if not entry or not loops:
+        raise AnalysisBroken('TAB19: %s: the scanning loop is not reached' % name)
+
+    def positions(s):
+        out = set(s.B)
+        for (e, _t, st, lp) in s.rel:
+            out |= {x for x in ex.deps(e, st, lp) if x is not None}
+        return out
+    roots = set()
+    for s in loops:
+        for p_ in positions(s):
+            roots.add(p_[0])
+    roots = {r for r in roots if isinstance(r, tuple) and r[0] in ('g', 'ix')}
+    if len(roots) != 1:
+        raise AnalysisBroken('TAB19: %s: the scan reads at %d different places' % (name, len(roots)))
+    r = next(iter(roots))
+    base = r[1] if r[0] == 'ix' else r
+    idx = r[2] if r[0] == 'ix' else None
+    names = [c for c in base[1:]]
+    n = 0
+    # 1. opener
+    disps = set()
+    for s in entry:
+        d = None
+        for c in names:
+            p_ = s.pos.get(c)
+            if p_ is not None and p_[0] == ('p', pcur) and p_[1] is not None:
+                d = p_[1]
+        if d is not None and idx is not None:
+            v = s.vals.get(idx)
+            d = d + v[1] if (v is not None and v[0] == 'k') else None
+        disps.add(d)
+    n += 1
+    ok = disps == {len(opener)}
+    R.ob('TAB19', fn, None, '%s steps over its opener %r before scanning' % (name, opener), ok,
+         'first byte examined lies %s byte(s) after the entry position' % sorted(disps, key=repr), key='opener:' + name)
+    # 2. exits
+    found = False
+    for s in loops:
+        if s.end[0] == 'head':
+            continue
+        cons = {p_[1]: v for p_, v in s.B.items() if p_[0] == r and v != bp.ALL}
+        behind = [a for a in cons if a < 0] + [p_[1] for p_ in positions(s) if p_[0] == r and p_[1] < 0]
+        if behind:
+            n += 1
+            R.ob('TAB19', fn, None, '%s decides on the bytes at and after the cursor only' % name, False,
+                 'a byte %d position(s) behind the cursor takes part in leaving the loop' % -min(behind), key='behind:' + name)
+            continue
+        if cons.get(0) == frozenset([0]):
+            continue          # left at the terminator
+        n += 1
+        fin = s.pos.get(pcur)
+        adv = fin[1] if (fin is not None and fin[0] == r) else None
+        want = {i: frozenset([ord(ch)]) for i, ch in enumerate(closer)}
+        okc = cons == want and adv == len(closer)
+        found = found or okc
+        R.ob('TAB19', fn, None, '%s ends only where the bytes at the cursor spell %r, and steps over exactly them' % (name, closer), okc,
+             'bytes %s, stepped over %s' % ({a: ''.join(chr(x) for x in sorted(v)[:4]) for a, v in sorted(cons.items())}, adv),
+             key='closer:' + name)
+    if not found:
+        R.ob('TAB19', fn, None, '%s recognises its closer %r' % (name, closer), False, 'no exit of the scanning loop matches the closer',
+             key='nocloser:' + name)
+    return n
 
 
 # ---- TAB20 key order is decided by the comparator functions only ------------------------------------------------
